@@ -13,6 +13,13 @@ CHECKS = {
         "quick": {"runs": 20000, "wall_s": 80, "runs_per_spec": 12, "run_wall_cap": 12, "proto": {}, "faults": True},
         "thorough": {"runs": 1000000, "wall_s": 1500, "runs_per_spec": 20, "run_wall_cap": 30, "proto": {"max_types": 7, "max_states": 4}, "faults": True},
     },
+    "C01": {"sim": "searchsim", "quick": {"runs": 20000, "wall_s": 70, "runs_per_spec": 25, "run_wall_cap": 25, "spec": {}}, "thorough": {"runs": 1000000, "wall_s": 1500, "runs_per_spec": 30, "run_wall_cap": 40, "spec": {"max_h": 7, "max_r": 5, "body_rules": 4}}},
+    "C02": {"sim": "searchsim", "quick": {"runs": 20000, "wall_s": 70, "runs_per_spec": 25, "run_wall_cap": 25, "spec": {"raising_rate": 0.5}}, "thorough": {"runs": 1000000, "wall_s": 1500, "runs_per_spec": 30, "run_wall_cap": 40, "spec": {"max_h": 7, "max_r": 5, "body_rules": 4, "raising_rate": 0.5}}},
+    "C03": {"sim": "searchsim", "quick": {"runs": 20000, "wall_s": 70, "runs_per_spec": 25, "run_wall_cap": 25, "spec": {"inexact_pair_rate": 0.5, "raising_rate": 0.0}}, "thorough": {"runs": 1000000, "wall_s": 1500, "runs_per_spec": 30, "run_wall_cap": 40, "spec": {"max_h": 7, "max_r": 5, "inexact_pair_rate": 0.5, "raising_rate": 0.0}}},
+    "C11": {"sim": "searchsim", "quick": {"runs": 20000, "wall_s": 70, "runs_per_spec": 25, "run_wall_cap": 25, "spec": {}}, "thorough": {"runs": 1000000, "wall_s": 1500, "runs_per_spec": 30, "run_wall_cap": 40, "spec": {"max_h": 7, "max_r": 5, "body_rules": 4}}},
+    "C16": {"sim": "searchsim", "quick": {"runs": 20000, "wall_s": 70, "runs_per_spec": 25, "run_wall_cap": 25, "spec": {"generators": True}, "gen_fault_rate": 0.08}, "thorough": {"runs": 1000000, "wall_s": 1500, "runs_per_spec": 30, "run_wall_cap": 40, "spec": {"max_h": 5, "max_r": 3}, "gen_fault_rate": 0.08}},
+    "C09": {"sim": "treesim", "quick": {"runs": 60000, "wall_s": 45, "runs_per_spec": 1, "run_wall_cap": 10}, "thorough": {"runs": 3000000, "wall_s": 1200, "runs_per_spec": 1, "run_wall_cap": 10}},
+    "C10": {"sim": "treesim", "quick": {"runs": 60000, "wall_s": 45, "runs_per_spec": 1, "run_wall_cap": 10}, "thorough": {"runs": 3000000, "wall_s": 1200, "runs_per_spec": 1, "run_wall_cap": 10}},
     "C12": {
         "sim": "parsesim",
         "quick": {"runs": 40000, "wall_s": 60, "runs_per_spec": 30, "run_wall_cap": 15, "grammar": dict(GRAMMAR_DEFAULT, max_rules=4)},
@@ -28,6 +35,48 @@ CHECKS = {
 _NOTE = "Seeded sampling, not enumeration: a clean batch is evidence, not proof. Trusted: the harness's own AST/derivation checker/reference models, CPython, and (where stated) Fandango code on *fresh* objects as reference."
 
 MANIFEST_TEXT = {
+    "C01": {
+        "level": "Seeded exploration of search runs (generated grammar + constraints + computed repetitions + generators, swarm settings): every tree handed to the evaluator, every crossover child, every mutant, every emitted solution and the final population is checked by an independent derivation checker against the harness's own grammar AST. Exploration is the right level: the quantifier ranges over grammars, settings and operator histories.",
+        "design_ref": "DESIGN.md §6.1",
+        "note": _NOTE,
+        "technique": "deterministic simulation of the evolutionary search as a stateful process (wrapped operators, seeded settings, consumer cancellation) with an independent derivation checker as per-step invariant",
+    },
+    "C02": {
+        "level": "Seeded exploration of search runs in the production exception path (FANDANGO_RAISE_ALL_EXCEPTIONS unset) with constraint code that raises for a deterministic subset of trees: every emitted solution is re-judged by a second spec object with empty caches (an exception logged during that evaluation counts as unsatisfied) and by harness-side predicates for the simple templates.",
+        "design_ref": "DESIGN.md §6.1",
+        "note": _NOTE + " The independent evaluator reuses Fandango's constraint classes on fresh objects (constraint semantics are C07); harness predicates cover the simple templates.",
+        "technique": "deterministic simulation of the search with injected call-back faults (raising constraint code) and an independent from-scratch evaluator on every emission",
+    },
+    "C03": {
+        "level": "Seeded exploration with (h, r) as a swarm dimension (floating-point-inexact pairs oversampled, declaration order shuffled): for every evaluate_individual call, a tree that the independent evaluator and the harness predicates accept must be yielded at its first evaluation and never twice.",
+        "design_ref": "DESIGN.md §6.1",
+        "note": _NOTE + " The rounding half of C03 is a pure function of (h, r); the simulation contributes first-sight reporting under caches/de-duplication and the configuration sweep.",
+        "technique": "deterministic simulation of the search with an exactly-once acceptance monitor on the evaluator, swept over constraint-count configurations",
+    },
+    "C09": {
+        "level": "Seeded exploration of operation histories on a pool of real trees that share Terminal objects: after every operation all value conversions are compared with a pure fold over the leaves, with every earlier answer, and the shared Terminal values are checked for mutation.",
+        "design_ref": "DESIGN.md §6.2",
+        "note": _NOTE + " int() of text/bytes and unaligned trailing bits are checked for history independence only.",
+        "technique": "deterministic simulation of tree-operation histories against a pure reference model (stateful model-based checking with seeded operation order)",
+    },
+    "C10": {
+        "level": "Seeded exploration of operation histories (<= 40 operations on <= 6 trees, incl. operations that raise part-way) with the whole pool compared against pure model twins after every operation: size, hash, equality, parent links, node identity, inputs of read-only operations unchanged, results of copy/replace share no node with inputs; SearchSim additionally checks that search operators never modify their inputs.",
+        "design_ref": "DESIGN.md §6.2",
+        "note": _NOTE,
+        "technique": "deterministic simulation of tree-operation histories against a pure reference model, plus alias monitors inside the simulated search",
+    },
+    "C11": {
+        "level": "Seeded exploration: every result returned by evaluate_individual during simulated search runs (fitness, failing parts) is compared, with exact float equality, against a from-scratch evaluation of a deep copy by new constraint objects with empty caches.",
+        "design_ref": "DESIGN.md §6.1",
+        "note": _NOTE + " Specs without soft constraints only (as the property states).",
+        "technique": "deterministic simulation of the search with a cache-coherence monitor (cached vs fresh evaluation) on every evaluator call",
+    },
+    "C16": {
+        "level": "Seeded exploration with a generator ledger: generator expressions call back into the harness, which decides per invocation whether a fitting value, a misfit or an exception is returned; every evaluated/emitted/population tree must carry ledger values under generator symbols with read-only children, and an injected misfit/raise must surface as an error.",
+        "design_ref": "DESIGN.md §6.1",
+        "note": _NOTE + " Constant/random generators without parameters; dependent generator pairs are not generated.",
+        "technique": "deterministic simulation of the search with fault injection into generator call-backs and a ledger-based history check",
+    },
     "C12": {
         "level": "Seeded exploration of request histories on one long-lived spec object (first-tree requests, whole forests, forests abandoned after k trees, API parse, prefix mode, other start symbols, control-flow requests, caller-side mutation of returned trees, fuzzing bursts) with each fully consumed request compared against the same request on a pristine spec object. Exploration is the right level because the quantifier ranges over all histories of requests.",
         "design_ref": "DESIGN.md §6.3",
@@ -61,9 +110,6 @@ NOT_APPLICABLE = {
     "C07": "A constraint verdict is a pure function of (tree, constraint program); deciding it needs a reference semantics over generated programs (translation validation / differential testing), not a simulator.",
     "C08": "AST equivalence of embedded Python with CPython's parser is translation validation over a program corpus; nothing to schedule or fault.",
     "C14": "Equivalence of the C++ and Python .fan front ends is differential testing over spec texts (single-shot pure functions); the C++ extension is git-ignored and absent from a fresh restore of /repo.",
-    "C15": "Print/re-read round trip of specs is a pure function of the grammar/constraint objects; no schedule, clock, fault or history.",
-    "C01": "planned (SearchSim), not built yet", "C02": "planned (SearchSim), not built yet", "C03": "planned (SearchSim), not built yet",
-    "C09": "planned (TreeSim), not built yet", "C10": "planned (TreeSim), not built yet", "C11": "planned (SearchSim), not built yet",
-"C16": "planned (SearchSim), not built yet", "C17": "planned (ReproSim), not built yet",
+    "C15": "Print/re-read round trip of specs is a pure function of the grammar/constraint objects; no schedule, clock, fault or history.", "C17": "planned (ReproSim), not built yet",
     "C18": "planned (IsolationSim), not built yet", 
 }
